@@ -43,13 +43,16 @@ use yverif::shell::{BuiltinFuture, Config, Outcome, SourceKind, VEnv, probe_buil
 
 /// the files the scripts may read with the `.` built-in (the same in lean/YashModel/Input/Model.lean
 /// `dotFile`)
-const DOT_FILES: [(&str, &str); 8] = [
+const DOT_FILES: [(&str, &str); 10] = [
     ("/d1", "probe D1\nread vd\nprobe D1b \"$vd\"\n"),
     ("/d2", "alias a3='probe fromdot'\nset -o portable\n"),
     ("/d3", "probe D3a\nfi\nprobe D3b\n"),
     ("/d4", "probe D4 'multi\nline'\ncat <<E\nh dot é\nE\n"),
     ("/d5", ""),
     ("/d6", "st 3"),
+    // no command at all / a command followed by lines without commands
+    ("/d7", "# only a comment\n\n   \n\t# and blanks\n"),
+    ("/d8", "\n# c\nst 4\n\n# trailing comment"),
     // data files for `<path` (the second one looks like commands: a shell that came to read its
     // commands from it would run them)
     ("/r1", "r1 one\nr1 two é\n"),
@@ -92,7 +95,8 @@ fn stdin_offset(env: &VEnv) -> usize {
     // the process the command runs in (a subshell has its own descriptor table: a redirection made
     // inside it is not visible in the parent's)
     let Some(p) = st.processes.get(&env.system.getpid()) else { return usize::MAX };
-    let Some(body) = p.get_fd(Fd::STDIN) else { return usize::MAX };
+    // a closed descriptor has no offset (`closein`): shown as 0, as in the model's `shownPos`
+    let Some(body) = p.get_fd(Fd::STDIN) else { return 0 };
     let mut ofd = body.open_file_description.borrow_mut();
     let fifo_len = match &ofd.inode().borrow().body {
         FileBody::Fifo { content, .. } => Some(content.len()),
@@ -133,6 +137,13 @@ fn probe_main(env: &mut VEnv, args: Vec<Field>) -> BuiltinFuture<'_> {
     })
 }
 
+/// `closein`: closes descriptor 0 of the process the command runs in (what `exec <&-` does): every later
+/// read of standard input — by the shell's own reader when the script comes from there — fails (EBADF)
+fn closein_main(env: &mut VEnv, _args: Vec<Field>) -> BuiltinFuture<'_> {
+    let _ = env.system.close(Fd::STDIN);
+    Box::pin(async move { ExitStatus::SUCCESS.into() })
+}
+
 fn run_feed(script: &[u8], data: &[u8], feed: &Feed) -> Outcome {
     let text = String::from_utf8_lossy(script).into_owned();
     let mut cfg = match feed {
@@ -166,6 +177,7 @@ fn run_feed(script: &[u8], data: &[u8], feed: &Feed) -> Outcome {
             STATE.with(|s| *s.borrow_mut() = Some(Rc::clone(state)));
             PROBES.set(0);
             env.builtins.insert("probe", Builtin::new(Type::Mandatory, probe_main));
+            env.builtins.insert("closein", Builtin::new(Type::Mandatory, closein_main));
             env.builtins.insert("a1", Builtin::new(Type::Mandatory, a1_main));
             env.builtins.insert("a2", Builtin::new(Type::Mandatory, a2_main));
             env.builtins.insert("a3", Builtin::new(Type::Mandatory, a3_main));
@@ -328,7 +340,12 @@ async fn parses(env: &mut VEnv, code: &str) -> Option<usize> {
             .command_line()
             .await;
         match r {
-            Ok(Some(_)) => count += 1,
+            // a line without commands (blank, comment) does not count as an executed command
+            Ok(Some(list)) => {
+                if !list.0.is_empty() {
+                    count += 1
+                }
+            }
             Ok(None) => return Some(count),
             Err(_) => return None,
         }
@@ -374,6 +391,7 @@ fn run_sequential(units: &[Vec<u8>], data: &[u8]) -> Outcome {
         STATE.with(|s| *s.borrow_mut() = Some(Rc::clone(&state2)));
         PROBES.set(0);
         env.builtins.insert("probe", Builtin::new(Type::Mandatory, probe_main));
+        env.builtins.insert("closein", Builtin::new(Type::Mandatory, closein_main));
         env.builtins.insert("a1", Builtin::new(Type::Mandatory, a1_main));
         env.builtins.insert("a2", Builtin::new(Type::Mandatory, a2_main));
         env.builtins.insert("a3", Builtin::new(Type::Mandatory, a3_main));
@@ -401,8 +419,8 @@ fn run_sequential(units: &[Vec<u8>], data: &[u8]) -> Outcome {
             }
             i = j;
             if parses(&mut env, &chunk).await == Some(0) {
-                // nothing to run (a comment without newline at the very end): a read-eval loop that
-                // finds no command at all resets `$?`, which the single run would not do here
+                // nothing to run (blank and comment lines only): a read-eval loop that finds no
+                // command at all resets `$?`, which the single run does not do in the middle of its input
                 continue;
             }
             let ref_env = RefCell::new(&mut env);
@@ -687,6 +705,7 @@ fn obs_of(o: Outcome) -> Obs {
                 && !t.starts_with(b"error: error reading from the standard input")
                 && !t.starts_with(b"error: input contains a nul byte")
                 && !t.starts_with(b"error: cannot open the file")
+                && !t.starts_with(b"error: cannot read commands")
             {
                 err = true;
             }
@@ -747,7 +766,7 @@ fn reads_stdin(script: &[u8]) -> bool {
             .filter(|t| !t.is_empty())
             .collect();
         for (i, t) in toks.iter().enumerate() {
-            if t.contains("read") || *t == "/d1" {
+            if t.contains("read") || *t == "/d1" || *t == "closein" {
                 return true;
             }
             if *t == "cat" && !toks.get(i + 1).map(|n| n.starts_with("<<")).unwrap_or(false) {
@@ -946,6 +965,25 @@ fn oracle(c: &Case, script: &[u8], obs: &Obs) -> String {
         let it = it.strip_suffix("!nb").unwrap_or(it);
         if is_probe_line(it) && it.split_once(':').unwrap().1.starts_with("4844") {
             return "FAIL:redirected-input-was-read-as-commands HD".into();
+        }
+    }
+    // (11) a read error of the command reader (descriptor 0 closed by `closein`, script on standard
+    // input): nothing after the closing command line was read, and the shell ends with status 128
+    if shared && !obs.err && script.windows(7).any(|w| w == b"closein") {
+        let after = enc_str("after");
+        for it in &obs.items {
+            let it = it.strip_suffix("!nb").unwrap_or(it);
+            if !is_probe_line(it) {
+                continue;
+            }
+            let fields = it.split_once(':').unwrap().1.rsplit_once('@').unwrap().0;
+            let fs: Vec<&str> = fields.split(',').collect();
+            if fs.first() == Some(&enc_str("never").as_str()) || fs.contains(&after.as_str()) {
+                return "FAIL:command-read-after-read-error".into();
+            }
+        }
+        if obs.status != 128 {
+            return format!("FAIL:read-error-not-in-exit-status {}", obs.status);
         }
     }
     // a reported error (other than a command that was not found) is a syntax error: status 2 —
@@ -1552,7 +1590,13 @@ impl Gen {
             }
             8 => ". /d4".into(),
             9 => format!("st 2; . /d5; probe {} $?", self.m()),
-            10 => format!(". /d6; probe {} $?", self.m()),
+            10 => match self.rng.below(5) {
+                0 => format!(". /d6; probe {} $?", self.m()),
+                1 => format!("st 3; . /d7; probe {} $?", self.m()),
+                2 => format!("st 3; . /d8; probe {} $?", self.m()),
+                3 => format!("st 3; eval ' \n# c\n\n'; probe {} $?", self.m()),
+                _ => format!("st 3; eval '# c\nst 5\n\n# d'; probe {} $?\nst 3; eval '\n' '#x'; probe {} $?", self.m(), self.m()),
+            },
             _ => format!("( eval 'probe {}\nst 4' ); probe {} $?", self.m(), self.m()),
         }
     }
@@ -1721,7 +1765,12 @@ impl Gen {
             rest.push_str(&format!("\n{}", self.data_line()));
         }
         let v = self.var();
-        match self.rng.below(5) {
+        match self.rng.below(7) {
+            // descriptor 0 closed: the rest of that line still runs; with the script on standard input
+            // the next read of the shell fails (read error, exit status 128) and nothing more is read;
+            // with `-c` / a script file the following commands run as before
+            5 => format!("probe {}; closein; probe {} $?\nprobe {} after\nst 3", self.m(), self.m(), self.m()),
+            6 => format!("if st 0; then\nclosein\nprobe {}\nfi; probe {}\nprobe {} after", self.m(), self.m(), self.m()),
             4 => {
                 let mut rest = String::new();
                 for _ in 0..1 + self.rng.below(3) {
@@ -1785,6 +1834,8 @@ impl Gen {
             format!("{{ st 0; }} in"),
             format!("{{ eval 'fi'; probe {m}; }} <<EOT <<EOU\nh\nEOT\nprobe {m} leaked\nEOU"),
             format!("cat <<EOT <\nh\nEOT"),
+            "]]".into(),
+            format!("probe {m}; [[ x ]]"),
         ];
         pool[self.rng.below(pool.len())].clone()
     }
@@ -2025,7 +2076,18 @@ fn main() {
     // thin branches fed with a boundary at every byte position: here-documents split across reads,
     // line continuation at a chunk boundary, an alias whose replacement consumes the next line, end of
     // input inside a quote, NUL and invalid UTF-8 bytes in data and in script text
-    let edge_scripts: [&[&str]; 22] = [
+    let edge_scripts: [&[&str]; 29] = [
+        // lines without commands at the start, in the middle and at the end of the input: `$?` at end of
+        // input is that of the last line that held a command, or 0 if none did
+        &["\n# c\n   \n", "st 3\n", "\n\t# é\n", "   "],
+        &["# only\n", "\n", "  # comments"],
+        &["st 4\n", "# c\n\n", "st 5; . /d7\n", "\n# end\n"],
+        &["st 3; . /d8; probe m1 $?\n", "st 3; eval ' \n#c\n'; probe m2 $?\n", "st 6\n\n"],
+        &["\n\n", "st 2; eval '\n# x\nst 7\n\n'\n", "# last"],
+        // a read error of the command reader (descriptor 0 closed): earlier lines and the rest of the
+        // closing line have run, nothing after it is read, exit status 128
+        &["probe m1\n", "closein; probe m2 $?\n", "probe never é\n", "fi\n"],
+        &["set -v\n", "{ closein\nprobe m1\n}\n", "probe never\n"],
         // a redirection error on a special built-in: the shell ends, nothing more is read
         &["probe m1\n", "set -v </nonexistent\n", "probe never\n"],
         &["{ : <<A </nonexistent; probe I1; } <<B\nh\nA\nprobe HD9 leaked\nB\n", "probe never\n"],
